@@ -181,12 +181,24 @@ func (j *jsonBuilder) flattenObject(value *astjson.Value, path ast.Path) ([]*ast
 // flattenList flattens a list of JSON values into a list of values.
 // This is needed because we want to get the values from the list by its path to merge them with the response values.
 func (j *jsonBuilder) flattenList(items []*astjson.Value, path ast.Path) ([]*astjson.Value, error) {
-	if path.Len() == 0 {
-		return items, nil
-	}
-
-	result := make([]*astjson.Value, 0)
+	result := make([]*astjson.Value, 0, len(items))
 	for _, item := range items {
+		// The items of a nested list ([[Category!]!]!) are lists themselves:
+		// the objects to merge into are the items of the innermost lists.
+		if item != nil && item.Type() == astjson.TypeArray {
+			values, err := j.flattenList(item.GetArray(), path)
+			if err != nil {
+				return nil, err
+			}
+			result = append(result, values...)
+			continue
+		}
+
+		if path.Len() == 0 {
+			result = append(result, item)
+			continue
+		}
+
 		values, err := j.flattenObject(item, path)
 		if err != nil {
 			return nil, err
